@@ -1,6 +1,6 @@
 """Rules added after triage of defects that the bug-author sub-agents met on the pristine tree (round 2)."""
 from ..util import *
-from ..ir import fmt_path, strip_casts, expr_insts, expr_loads
+from ..ir import fmt_path, strip_casts, expr_insts, expr_loads, dead_edges
 from .more import _Poly, _PRED
 
 
@@ -44,10 +44,20 @@ def rule_stack_pop(mod, rep):
                             nonnull_edge = succ[0] if C.pred == "ne" else succ[1]
                             if s == nonnull_edge:
                                 guards |= (srcs & exp_ids)
-            ok = nterms == 1 and bool(guards)
+            # the popped count is the variable the guarded array was sized with: p?gstrf_expand(&count, ...) <-> load of the same cell in `bytes`
+            same_count = True
+            if nterms == 1 and guards:
+                cnt_cells = set()
+                for L in expr_loads(f, c.ops[0]):
+                    cnt_cells |= set(f.addr_paths(L))
+                exp_cells = set()
+                for gi in guards:
+                    exp_cells |= set(f.paths(f.inst[gi].ops[0]))
+                same_count = bool(cnt_cells & exp_cells)
+            ok = nterms == 1 and bool(guards) and same_count
             rep.check(ok, "STACK-POP", "%s#user_free@%d" % (f.name, n), "pops %s under a non-NULL test of the array it belongs to" % pfmt(poly),
                       "?user_free(%s) in the retry loop %s: the sizes of arrays whose allocation failed are popped too" %
-                      (pfmt(poly), "is not guarded by a non-NULL test of an expand() result" if not guards else "releases %d arrays at once" % nterms), c.loc, f.name)
+                      (pfmt(poly), "is not guarded by a non-NULL test of an expand() result" if not guards else ("releases %d arrays at once" % nterms if nterms != 1 else "pops the size of another array than the one whose pointer is tested")), c.loc, f.name)
         if n == 0:
             rep.brk("ANALYSIS-BROKEN STACK-POP: no ?user_free call inside a loop of %s" % f.name)
 
@@ -241,3 +251,251 @@ def rule_gemv_total(mod, rep):
         rep.check(not ab, "GEMV-TOTAL", "%s#no-abort" % f.name, "no abort reachable in %d function(s)" % len(fs),
                   "sp_%sgemv aborts at %s for an argument combination its prologue accepted (increment other than 1 on the %s side)" %
                   (prec, ab[0].loc if ab else "?", "output" if ab else ""), ab[0].loc if ab else f.file, f.name)
+
+
+# ---------------------------------------------------------------------------------------------------------------------------------
+# CPLX-ALIAS: an in-place complex update computes both parts from the old value
+# ---------------------------------------------------------------------------------------------------------------------------------
+def rule_cplx_alias(mod, rep, scope_pred=None, floor=20):
+    rep.rule("CPLX-ALIAS", "complex arithmetic written out by hand or through the ?? _mult/_div macros: when the real and the imaginary part of one element are both stored in a "
+             "block, the value stored into the second part does not depend on a load of the first part that is executed after that part was overwritten "
+             "(c := a*b with c aliasing a or b has to take both parts of the operands before it stores either)", floor=floor)
+    n = 0
+    for f in mod.funcs.values():
+        if scope_pred is not None and not scope_pred(f):
+            continue
+        for b in f.blocks:
+            sts = [x for x in b.insts if x.op == "store" and x.ty in ("float", "double") or (x.op == "store" and f.otype(x.ops[0]) in ("float", "double"))]
+            if len(sts) < 2:
+                continue
+            # group by element: address = gep(base, ..., field r/i); key = the address with its last field step removed
+            def akey(o, depth=0):
+                """canonical form of an address: root operand + field / index steps (index operands by SSA identity after casts)"""
+                o = strip_casts(f, o)
+                if o[0] == "v" and f.inst[o[1]].op == "getelementptr" and depth < 6:
+                    g = f.inst[o[1]]
+                    base = akey(g.ops[0], depth + 1)
+                    steps = []
+                    for st in (g.gep or []):
+                        if st.get("k") == "fld":
+                            steps.append(("f", st.get("n")))
+                        else:
+                            v = st.get("v")
+                            vv = tuple(strip_casts(f, v)) if v else None
+                            if vv and vv[0] == "c" and vv[1] == 0:
+                                continue
+                            steps.append(("i", vv))
+                    return base + tuple(steps)
+                return (tuple(o),)
+
+            def split(x, addr=None):
+                k = akey(addr if addr is not None else x.ops[1])
+                if len(k) >= 2 and k[-1][0] == "f" and k[-1][1] in ("r", "i"):
+                    return (k[:-1], None, k[-1][1])
+                return None
+            byel = {}
+            for x in sts:
+                k = split(x)
+                if k and k[2] in ("r", "i"):
+                    byel.setdefault(k[0], []).append((k[2], x))
+            for el, parts in byel.items():
+                names = [p for p, _ in parts]
+                if "r" not in names or "i" not in names:
+                    continue
+                parts.sort(key=lambda t: t[1].i)
+                first_part, S1 = parts[0]
+                for (pn, S2) in parts[1:]:
+                    if pn == first_part:
+                        continue
+                    n += 1
+                    rep.scope([f.name])
+                    bad = None
+                    for L in _loads_thru_intrinsics(f, S2.ops[0]):
+                        if L.bb.id == b.id and L.i > S1.i:
+                            kL = split(L, L.ops[0])
+                            if kL and kL[0] == el and kL[2] == first_part:
+                                bad = L
+                    rep.check(bad is None, "CPLX-ALIAS", "%s#%s-then-%s@%s" % (f.name, first_part, pn, S2.ln),
+                              "both parts are computed from values loaded before the first store",
+                              "the .%s part stored at line %s is computed from the .%s part of the same element re-read after it was overwritten at line %s" % (pn, S2.ln, first_part, S1.ln),
+                              S2.loc, f.name)
+    return n
+
+
+
+def _loads_thru_intrinsics(f, o, limit=300):
+    """loads in the expression tree of o; llvm.* intrinsics (llvm.fmuladd, llvm.fabs ...) are arithmetic, other calls end the walk"""
+    out = []; seen = set(); work = [o]
+    while work and len(seen) < limit:
+        x = strip_casts(f, work.pop())
+        if x[0] != "v" or x[1] in seen:
+            continue
+        seen.add(x[1])
+        ins = f.inst[x[1]]
+        if ins.op == "load":
+            out.append(ins); continue
+        if ins.op == "alloca" or (ins.op == "call" and not (ins.callee or "").startswith("llvm.")):
+            continue
+        for y in ins.ops:
+            if isinstance(y, (list, tuple)) and y and y[0] in ("v",):
+                work.append(y)
+    return out
+
+
+# ---------------------------------------------------------------------------------------------------------------------------------
+# RES-FAIL/WorkInit (C17): a producer that reports failure has given back what it had already produced
+# ---------------------------------------------------------------------------------------------------------------------------------
+def rule_workinit_failure(mod, rep):
+    rep.rule("RES-FAIL-W", "p?gstrf_WorkInit hands two arrays to its caller through out-parameters and the caller (p?gstrf_thread) returns at once when it reports failure, "
+             "so on every return of a non-zero value that is reached after the first array was obtained from the system allocator (memory mode SYSTEM) that array has been "
+             "released", floor=4)
+    for prec, f in fam(mod, "p?gstrf_WorkInit"):
+        rep.scope([f.name])
+        ki = f.pindex("iworkptr")
+        acq = [c for c in f.calls() if (c.callee or "") in ("intCalloc", "intMalloc", "superlu_malloc") and
+               any(s.op == "store" and (("A", ki),) in f.addr_paths(s) and any(p == (("C", c.callee, c.i),) for p in f.paths(s.ops[0])) for s in f.insts())]
+        if not acq:
+            rep.brk("ANALYSIS-BROKEN RES-FAIL-W: allocation of *iworkptr not found in %s" % f.name)
+            continue
+        A0 = acq[0]
+        frees = [c for c in f.calls("superlu_free") if any(len(p) == 2 and p[0] == ("A", ki) and p[1] == ("*",) for p in f.paths(c.ops[0]))]
+        dead = dead_edges(f)
+        # the null test of the first array: its failure return holds nothing
+        bad = []
+        for r in f.rets():
+            v = r.ops[0] if r.ops else None
+            # collect the return blocks by predecessor (merged return block): examine every path A0 -> ret avoiding a free
+            pass
+        # path-sensitive in the conditions that decided the acquisition (whichspace == SYSTEM is tested again at the release)
+        from .res import _canon_cond
+        from .pivot import _cd_closure as _cdc
+        facts0 = {}
+        for (a, s_) in _cdc(f, A0.bb.id):
+            tt = f.blocks[a].insts[-1]
+            if tt.op == "br" and tt.ops:
+                cc = _canon_cond(f, tt.ops[0])
+                if cc is not None and cc[0][0] in ("icmp",):
+                    val = (s_ == tt.tgt[0])
+                    facts0[cc[0]] = (val != cc[1])
+        reach = set()
+        work = [(x, tuple(sorted(facts0.items(), key=repr))) for x in f.next_insts(A0)]
+        seen_st = set()
+        while work:
+            x, fk = work.pop()
+            if (x.i, fk) in seen_st:
+                continue
+            seen_st.add((x.i, fk))
+            reach.add(x.i)
+            if x in frees:
+                continue
+            if x.op == "br" and x.ops:
+                cc = _canon_cond(f, x.ops[0])
+                fd = dict(fk)
+                for tg, val in ((x.tgt[0], True), (x.tgt[1], False)):
+                    if (x.bb.id, tg) in dead:
+                        continue
+                    if cc is not None and cc[0] in fd and fd[cc[0]] != (val != cc[1]):
+                        continue
+                    work.append((f.blocks[tg].insts[0], fk))
+                continue
+            for y in f.next_insts(x, dead):
+                work.append((y, fk))
+        # exits reached without a free: classify by the value returned
+        for b in f.blocks:
+            t = b.insts[-1]
+            if t.op != "ret" or t.i not in reach:
+                continue
+            rv = strip_casts(f, t.ops[0]) if t.ops else None
+            srcs = []
+            if rv and rv[0] == "v" and f.inst[rv[1]].op == "phi":
+                ph = f.inst[rv[1]]
+                srcs = [(strip_casts(f, o), pb) for o, pb in zip(ph.ops, ph.inb)]
+            elif rv:
+                srcs = [(rv, None)]
+            for (o, pb) in srcs:
+                if o[0] == "c" and o[1] == 0:
+                    continue                       # success: the caller owns both arrays
+                # failure value: is this predecessor reachable from the acquisition without a free, on a path where the array is non-NULL?
+                if pb is None:
+                    bad.append(t); continue
+                last = f.blocks[pb].insts[-1]
+                if last.i not in reach and f.blocks[pb].insts[0].i not in reach:
+                    continue
+                # the failure return right after the acquisition's own NULL test holds nothing: that block is control dependent on (*iworkptr == NULL)
+                nulltest = False
+                from .pivot import _cd_closure
+                for (a, s) in _cd_closure(f, pb):
+                    tt = f.blocks[a].insts[-1]
+                    if tt.op == "br" and tt.ops and tt.ops[0][0] == "v":
+                        C = f.inst[tt.ops[0][1]]
+                        if C.op == "icmp" and C.pred in ("eq", "ne") and any(o2[0] == "null" or is_const(o2, 0) for o2 in C.ops):
+                            lo = [strip_casts(f, o2) for o2 in C.ops if o2[0] == "v"]
+                            if lo and f.inst[lo[0][1]].op == "load" and any(len(p) == 2 and p[0] == ("A", ki) for p in f.paths(lo[0])):
+                                succ = [x.id for x in f.blocks[a].succ]
+                                null_edge = succ[0] if C.pred == "eq" else succ[1]
+                                if s == null_edge:
+                                    nulltest = True
+                if not nulltest:
+                    bad.append(last)
+        rep.check(not bad, "RES-FAIL-W", "%s#failure-returns" % f.name, "every failure return after *iworkptr was obtained releases it (SYSTEM mode) - %d release site(s)" % len(frees),
+                  "a failure return (%s) is reached with the integer work array still allocated: the worker returns immediately and nobody frees it" % (bad[0].loc if bad else ""),
+                  bad[0].loc if bad else f.file, f.name)
+
+
+# ---------------------------------------------------------------------------------------------------------------------------------
+# ARG-NAME: an argument that carries the name of one of the callee's parameters is passed in that parameter's position
+# ---------------------------------------------------------------------------------------------------------------------------------
+# frozen after reading each site (three of 1809 name-carrying arguments on the unchanged tree):
+ARG_NAME_EXCEPTIONS = {
+    ("sp_colorder", "cholnzcnt", "invp"): "different naming convention: the caller's invp (inverse of perm_c) is the callee's perm (new -> old), the caller's perm_c is the callee's invp",
+    ("sp_colorder", "qrnzcnt", "invp"): "same as cholnzcnt",
+    ("t_mult", "t_add", "a"): "colamd size_t helper: accumulates s = t_add(s, a)",
+}
+
+
+def _arg_name(f, o):
+    o = strip_casts(f, o)
+    if o[0] == "a":
+        return f.pname(o[1])
+    if o[0] == "v":
+        x = f.inst[o[1]]
+        if x.dn:
+            return x.dn
+        if x.op == "load":
+            ps = f.addr_paths(x)
+            if len(ps) == 1:
+                p = list(ps)[0]
+                if p[-1][0] == "f":
+                    return p[-1][2]
+    return None
+
+
+def rule_arg_names(mod, rep, caller_pred, floor=10):
+    rep.rule("ARG-NAME", "calls between library routines: when an argument is the variable (or structure field) that bears the name of one of the callee's parameters, it is passed "
+             "in that parameter's position - unless that position also receives a variable of that name. Holds for 1806 of 1809 such arguments of the unchanged tree; "
+             "the three others are frozen exceptions with a reason. A violation is two adjacent same-typed arguments transposed, or the wrong one of two similar variables forwarded",
+             floor=floor)
+    for f in mod.funcs.values():
+        if not caller_pred(f):
+            continue
+        for c in f.calls():
+            g = mod.funcs.get(c.callee or "")
+            if g is None:
+                continue
+            pn = [p["name"] for p in g.params]
+            names = [_arg_name(f, o) for o in c.ops[:len(pn)]]
+            for i, N in enumerate(names):
+                if not N or N not in pn:
+                    continue
+                rep.scope([f.name])
+                j = pn.index(N)
+                key = "%s->%s#%s@%s" % (f.name, g.name, N, c.ln)
+                if j == i or pn[i] == N or (j < len(names) and names[j] == N):
+                    rep.ok("ARG-NAME", key, "'%s' is passed as '%s'" % (N, pn[i]), c.loc, f.name)
+                    continue
+                why = ARG_NAME_EXCEPTIONS.get((f.name, g.name.rstrip("0123456789."), N)) or ARG_NAME_EXCEPTIONS.get((f.name, g.name, N))
+                if why:
+                    rep.ok("ARG-NAME", key, "frozen exception: " + why, c.loc, f.name)
+                    continue
+                rep.fail("ARG-NAME", key, "%s passes '%s' where %s expects '%s', and %s's parameter '%s' receives '%s'" % (f.name, N, g.name, pn[i], g.name, N, names[j] if j < len(names) else "?"),
+                         c.loc, f.name)
